@@ -369,3 +369,37 @@ def _obs_back(v):
     if isinstance(v, list):
         return tuple(_obs_back(x) for x in v)
     return v
+
+
+def selftest(ctx):
+    """corrupt one recorded result / one expected value: both must be rejected"""
+    import copy
+    df = core.import_library()
+    embs = _ctx_embs("quick", ctx.seed)
+    rnd = random.Random(99)
+    traces = [gen_trace(df, rnd, t + 1, embs[:2]) for t in range(40)]
+    _, v0, _ = ctx.trace_check("C01Trace", "C01Trace.cfg", traces)
+    bad = copy.deepcopy(traces)
+    hit = None
+    for t in bad:
+        for e in t["ev"]:
+            if e["k"] == "p2i" and e["ok"]:
+                e["r"][0] += 1
+                hit = t["id"]
+                break
+        if hit:
+            break
+    _, v1, _ = ctx.trace_check("C01Trace", "C01Trace.cfg", bad)
+    res = [("clean traces accepted by C01Trace", len(v0) == 0),
+           ("trace with one altered index rejected by C01Trace", any(v[1] == hit for v in v1))]
+    # spec -> code: alter the expected centre of one dumped state
+    r = ctx.model("MC_C01", "C01_quick.cfg", dump=True, coverage=False)
+    st = next(s for s in ctx.dump_states(r) if s["act"][0] == "cells")
+    part = Part()
+    exec_state(df, st, embs[0], part)
+    clean = not part["violations"]
+    st2 = dict(st, obs=tuple(v + (1 if j == 0 else 0) for j, v in enumerate(st["obs"])))
+    part2 = Part()
+    exec_state(df, st2, embs[0], part2)
+    res += [("dumped state accepted by the replay", clean), ("dumped state with one altered expected value rejected", bool(part2["violations"]))]
+    return res
